@@ -36,3 +36,5 @@ def run(ctx, R):
     jitcross.rule_immneg(ctx, R, 'rv64')
     a64sem.rule_immhelp(ctx, R)
     sshash.rule_immenc(ctx, R, F)
+    jit.rule_tab_opc(ctx, R, 'rvv', F)
+    jitcross.rule_immneg(ctx, R, 'rvv')
